@@ -862,6 +862,15 @@ static mi_segment_t* mi_segment_os_alloc( size_t required, size_t page_alignment
   if (memid.initially_committed) {
     mi_commit_mask_create_full(&commit_mask);
   }
+  else if (required > 0) {
+    // a huge segment is always fully committed (its commit mask cannot describe it); this can only
+    // happen if the arena could not commit the memory: try once more for the whole segment or fail.
+    mi_commit_mask_create_full(&commit_mask);
+    if (!_mi_os_commit(segment, segment_size, NULL)) {
+      _mi_arena_free(segment,segment_size,0,memid);
+      return NULL;
+    }
+  }
   else {
     // at least commit the info slices
     const size_t commit_needed = _mi_divide_up((*pinfo_slices)*MI_SEGMENT_SLICE_SIZE, MI_COMMIT_SIZE);
